@@ -173,8 +173,14 @@ From Coq Require Import String.
 From RQ Require Import Parser Writer Quilt TreeRollback PathProofs.
 Local Notation length := List.length (only parsing).
 
+Definition allK : bytes -> Prop := fun _ => True.
+
 Section QuiltSim.
+  (* the names looked at: all of them ([allK]), or the names of one class of files *)
+  Variable K : bytes -> Prop.
   Variable dm : N.
+
+  Definition okkey (k : bytes) : Prop := K k /\ canon k = k.
 
   Definition effm (p : option mode) : N :=
     match p with None => N.land dm 4095 | Some v => N.land v 4095 end.
@@ -213,7 +219,7 @@ Section QuiltSim.
     end.
 
   Definition wsim (fs1 : fsys) (ov1 : overlay) (fs2 : fsys) (ov2 : overlay) : Prop :=
-    forall k, canon k = k -> ressim ms (look fs1 ov1 k) (look fs2 ov2 k) /\ present fs1 ov1 k = present fs2 ov2 k.
+    forall k, okkey k -> ressim ms (look fs1 ov1 k) (look fs2 ov2 k) /\ present fs1 ov1 k = present fs2 ov2 k.
 
   Lemma get_or_load_look fs ov k :
     get_or_load fs ov k = dor m <- look fs ov k; ROk (m, match ov_get k ov with Some _ => ov | None => ov_set k m ov end).
@@ -262,7 +268,7 @@ Section QuiltSim.
   Definition lsim (fs1 fs2 : fsys) (x y : mfile * overlay) : Prop :=
     ms (fst x) (fst y) /\ wsim fs1 (snd x) fs2 (snd y).
 
-  Lemma get_or_load_sim fs1 ov1 fs2 ov2 k : wsim fs1 ov1 fs2 ov2 -> canon k = k ->
+  Lemma get_or_load_sim fs1 ov1 fs2 ov2 k : wsim fs1 ov1 fs2 ov2 -> okkey k ->
     ressim (lsim fs1 fs2) (get_or_load fs1 ov1 k) (get_or_load fs2 ov2 k).
   Proof.
     intros H Hk. rewrite !get_or_load_look. destruct (H k Hk) as [Hl _].
@@ -294,12 +300,16 @@ Section QuiltSim.
     - destruct (has_dotdot o); [reflexivity|]. cbn. destruct (fs_exists fs (normalize o)); reflexivity.
   Qed.
 
-  Lemma choose_filename_sim fs1 ov1 fs2 ov2 fp : wsim fs1 ov1 fs2 ov2 ->
+  (* the names of a file patch are among the names looked at *)
+  Definition fpK (fp : pfilepatch) : Prop :=
+    (forall o, kold fp = Some o -> K o) /\ (forall n, knew fp = Some n -> K n).
+
+  Lemma choose_filename_sim fs1 ov1 fs2 ov2 fp : wsim fs1 ov1 fs2 ov2 -> fpK fp ->
     choose_filename fs1 ov1 fp = choose_filename fs2 ov2 fp.
   Proof.
-    intros H. rewrite !choose_filename_present. destruct (kold fp) as [o|] eqn:Eo; destruct (knew fp) as [n|]; try reflexivity.
-    assert (Ho : canon o = o).
-    { unfold kold in Eo. destruct (pf_old fp) as [x|]; [|discriminate]. injection Eo as <-. apply canon_idem. }
+    intros H [HKo _]. rewrite !choose_filename_present. destruct (kold fp) as [o|] eqn:Eo; destruct (knew fp) as [n|]; try reflexivity.
+    assert (Ho : okkey o).
+    { split; [apply HKo; reflexivity|]. unfold kold in Eo. destruct (pf_old fp) as [x|]; [|discriminate]. injection Eo as <-. apply canon_idem. }
     destruct (H o Ho) as [_ Hp]. rewrite Hp. reflexivity.
   Qed.
 
@@ -316,6 +326,16 @@ Section QuiltSim.
         [eapply kold_canon|eapply knew_canon]; eassumption.
     - intros [= <-]. eapply kold_canon; eassumption.
     - intros [= <-]. eapply knew_canon; eassumption.
+  Qed.
+
+  Lemma choose_okkey fs ov fp t : fpK fp -> choose_filename fs ov fp = ROk t -> okkey t.
+  Proof.
+    intros [HKo HKn] H. split; [|eapply choose_canon; exact H]. revert H.
+    rewrite choose_filename_present. destruct (kold fp) as [o|] eqn:Eo; destruct (knew fp) as [n|] eqn:En; try discriminate.
+    - destruct (bytes_eqb o n); [intros [= <-]; apply HKo; reflexivity|].
+      destruct (present fs ov o) as [[|]| |]; cbn; try discriminate; intros [= <-]; [apply HKo|apply HKn]; reflexivity.
+    - intros [= <-]. apply HKo; reflexivity.
+    - intros [= <-]. apply HKn; reflexivity.
   Qed.
 
   Lemma move_out_sim m1 m2 : ms m1 m2 -> ms (fst (move_out m1)) (fst (move_out m2)) /\ ms (snd (move_out m1)) (snd (move_out m2)).
@@ -348,7 +368,7 @@ Section QuiltSim.
 
   Definition has (k : bytes) (ov : overlay) : Prop := ov_get k ov <> None.
   Definition skeys (ov : overlay) (s : status) : Prop :=
-    (has (st_final s) ov /\ has (st_target s) ov) /\ canon (st_final s) = st_final s /\ canon (st_target s) = st_target s.
+    (has (st_final s) ov /\ has (st_target s) ov) /\ okkey (st_final s) /\ okkey (st_target s).
   Definition grows (ov ov' : overlay) : Prop := forall k, has k ov -> has k ov'.
 
   Lemma has_set_same k m ov : has k (ov_set k m ov).
@@ -394,13 +414,13 @@ Section QuiltSim.
                       Forall2 (fun s1 s2 => st_index s1 = st_index s2) new1 new2.
 
   Lemma apply_one_file_patch_sim fs1 fs2 st1 st2 index pn rev fuzz fp :
-    wsim fs1 (a_files st1) fs2 (a_files st2) ->
+    wsim fs1 (a_files st1) fs2 (a_files st2) -> fpK fp ->
     ressim (stepsim fs1 fs2 st1 st2) (apply_one_file_patch fs1 st1 index pn rev fuzz fp)
                                      (apply_one_file_patch fs2 st2 index pn rev fuzz fp).
   Proof.
-    intros Hw. unfold apply_one_file_patch. rewrite (choose_filename_sim fs1 _ fs2 _ fp Hw).
+    intros Hw HK. unfold apply_one_file_patch. rewrite (choose_filename_sim fs1 _ fs2 _ fp Hw HK).
     destruct (choose_filename fs2 (a_files st2) fp) as [target| |] eqn:Ec; cbn [rbind ressim]; auto.
-    pose proof (choose_canon _ _ _ _ Ec) as Hct.
+    pose proof (choose_okkey _ _ _ _ HK Ec) as Hct.
     pose proof (get_or_load_sim fs1 _ fs2 _ target Hw Hct) as Hl.
     destruct (get_or_load fs1 (a_files st1) target) as [[file1 ova1]| |] eqn:G1;
       destruct (get_or_load fs2 (a_files st2) target) as [[file2 ova2]| |] eqn:G2; cbn [ressim fst snd] in Hl; cbn [rbind ressim]; try contradiction; auto.
@@ -409,7 +429,7 @@ Section QuiltSim.
     destruct (pf_rename fp).
     - (* rename *)
       destruct (knew fp) as [newname|] eqn:En; cbn [ressim]; auto.
-      pose proof (knew_canon _ _ En) as Hcn.
+      assert (Hcn : okkey newname) by (split; [apply (proj2 HK); exact En|exact (knew_canon _ _ En)]).
       destruct (move_out_sim file1 file2 Hf) as [Hstay Htmp].
       destruct (move_out file1) as [stay1 tmp1]. destruct (move_out file2) as [stay2 tmp2]. cbn [fst snd] in Hstay, Htmp.
       pose proof (wsim_set _ _ _ _ target _ _ Hwa Hstay) as Hw2.
@@ -479,7 +499,7 @@ Section QuiltSim.
 
   (* ---------- rollback ---------- *)
 
-  Lemma ov_get_sim fs1 ov1 fs2 ov2 k : wsim fs1 ov1 fs2 ov2 -> canon k = k -> has k ov1 -> has k ov2 ->
+  Lemma ov_get_sim fs1 ov1 fs2 ov2 k : wsim fs1 ov1 fs2 ov2 -> okkey k -> has k ov1 -> has k ov2 ->
     exists m1 m2, ov_get k ov1 = Some m1 /\ ov_get k ov2 = Some m2 /\ ms m1 m2.
   Proof.
     intros Hw Hk H1 H2. destruct (Hw k Hk) as [Hl _]. unfold look, has in *.
@@ -619,19 +639,20 @@ Section QuiltSim.
     fst x = fst y /\ extsim fs1 fs2 base1 base2 (snd x) (snd y).
 
   Lemma apply_file_patches_sim fs1 fs2 base1 base2 index sp fuzz : forall fps st1 st2 af,
-    extsim fs1 fs2 base1 base2 st1 st2 ->
+    Forall fpK fps -> extsim fs1 fs2 base1 base2 st1 st2 ->
     ressim (afsim fs1 fs2 base1 base2) (apply_file_patches fs1 st1 index sp fuzz fps af)
                                       (apply_file_patches fs2 st2 index sp fuzz fps af).
   Proof.
-    induction fps as [|fp fps IH]; intros st1 st2 af Hext; cbn [apply_file_patches].
+    induction fps as [|fp fps IH]; intros st1 st2 af HK Hext; cbn [apply_file_patches].
     - cbn. split; [reflexivity|exact Hext].
-    - destruct Hext as (Hw & new1 & new2 & E1 & E2 & F2 & K1 & K2).
-      pose proof (apply_one_file_patch_sim fs1 fs2 st1 st2 index (sp_name sp) (sp_reverse sp) fuzz fp Hw) as Hstep.
+    - inversion HK as [|? ? HKfp HKrest]; subst.
+      destruct Hext as (Hw & new1 & new2 & E1 & E2 & F2 & K1 & K2).
+      pose proof (apply_one_file_patch_sim fs1 fs2 st1 st2 index (sp_name sp) (sp_reverse sp) fuzz fp Hw HKfp) as Hstep.
       destruct (apply_one_file_patch fs1 st1 index (sp_name sp) (sp_reverse sp) fuzz fp) as [[ok1 sta1]| |];
         destruct (apply_one_file_patch fs2 st2 index (sp_name sp) (sp_reverse sp) fuzz fp) as [[ok2 sta2]| |];
         cbn [ressim] in Hstep; try contradiction; cbn [rbind ressim]; auto.
       destruct Hstep as (Hok & Hwa & G1 & G2 & n1 & n2 & A1 & A2 & Fn & Kn1 & Kn2 & _). cbn [fst snd] in *. subst ok2.
-      apply IH. split; [exact Hwa|]. exists (n1 ++ new1), (n2 ++ new2).
+      apply IH; [exact HKrest|]. split; [exact Hwa|]. exists (n1 ++ new1), (n2 ++ new2).
       rewrite A1, A2, E1, E2, !app_assoc. repeat split; try reflexivity.
       + apply Forall2_app; assumption.
       + apply Forall_app. split; [assumption|]. eapply Forall_impl; [|exact K1]. intros s; apply skeys_grows; exact G1.
@@ -644,18 +665,20 @@ Section QuiltSim.
     snd (fst x) = snd (fst y) /\ snd x = snd y /\ extsim fs1 fs2 base1 base2 (fst (fst x)) (fst (fst y)).
 
   Theorem apply_series_sim cfg db fs1 fs2 base1 base2 lo :
+    (forall fp, fpK fp) ->
     (forall s, In s base1 -> (st_index s < lo)%nat) -> (forall s, In s base2 -> (st_index s < lo)%nat) ->
     forall series st1 st2 index, (lo <= index)%nat -> extsim fs1 fs2 base1 base2 st1 st2 ->
     fst (apply_series cfg db st1 index series fs1) = fs1 /\ fst (apply_series cfg db st2 index series fs2) = fs2 /\
     ressim (sersim fs1 fs2 base1 base2) (snd (apply_series cfg db st1 index series fs1))
                                        (snd (apply_series cfg db st2 index series fs2)).
   Proof.
-    intros Hb1 Hb2. induction series as [|sp rest IH]; intros st1 st2 index Hlo Hext; cbn [apply_series].
+    intros HallK Hb1 Hb2. induction series as [|sp rest IH]; intros st1 st2 index Hlo Hext; cbn [apply_series].
     - cbn. repeat (split; [reflexivity|]). exact Hext.
     - destruct (db_get (sp_name sp) db) as [data|]; [|cbn; auto].
       destruct (parse_patch data (sp_strip sp) false) as [[p|pe]| |]; try (cbn; auto; fail).
       unfold mbind, mget, mlift. cbn [fst snd].
-      pose proof (apply_file_patches_sim fs1 fs2 base1 base2 index sp (c_fuzz cfg) (pp_fps p) st1 st2 false Hext) as Hfp.
+      pose proof (apply_file_patches_sim fs1 fs2 base1 base2 index sp (c_fuzz cfg) (pp_fps p) st1 st2 false
+                    (proj2 (Forall_forall _ _) (fun fp _ => HallK fp)) Hext) as Hfp.
       destruct (apply_file_patches fs1 st1 index sp (c_fuzz cfg) (pp_fps p) false) as [[fl1 sta1]| |];
         destruct (apply_file_patches fs2 st2 index sp (c_fuzz cfg) (pp_fps p) false) as [[fl2 sta2]| |];
         cbn [ressim] in Hfp; try contradiction; cbn [fst snd ressim]; auto.
@@ -681,9 +704,9 @@ Section QuiltSim.
 
   (* the saved tree reads as the overlay: by cases on whether the name has an overlay entry *)
   Lemma reload_wsim fs ov fs2 :
-    (forall k m, canon k = k -> ov_get k ov = Some m ->
+    (forall k m, okkey k -> ov_get k ov = Some m ->
        ressim ms (ROk m) (look fs2 [] k) /\ ROk (negb (deleted m)) = present fs2 [] k) ->
-    (forall k, canon k = k -> ov_get k ov = None -> look fs2 [] k = look fs [] k /\ present fs2 [] k = present fs [] k) ->
+    (forall k, okkey k -> ov_get k ov = None -> look fs2 [] k = look fs [] k /\ present fs2 [] k = present fs [] k) ->
     wsim fs ov fs2 [].
   Proof.
     intros H1 H2 k Hk. destruct (ov_get k ov) as [m|] eqn:G.
@@ -694,7 +717,7 @@ Section QuiltSim.
   Qed.
 
   Theorem continue_equals_fresh cfg db fs ov applied fs2 lo :
-    wsim fs ov fs2 [] -> (forall s, In s applied -> (st_index s < lo)%nat) ->
+    (forall fp, fpK fp) -> wsim fs ov fs2 [] -> (forall s, In s applied -> (st_index s < lo)%nat) ->
     forall series index, (lo <= index)%nat ->
     fst (apply_series cfg db {| a_applied := applied; a_files := ov |} index series fs) = fs /\
     fst (apply_series cfg db {| a_applied := []; a_files := [] |} index series fs2) = fs2 /\
@@ -702,8 +725,8 @@ Section QuiltSim.
            (snd (apply_series cfg db {| a_applied := applied; a_files := ov |} index series fs))
            (snd (apply_series cfg db {| a_applied := []; a_files := [] |} index series fs2)).
   Proof.
-    intros Hw Hb series index Hlo.
-    apply (apply_series_sim cfg db fs fs2 applied [] lo Hb (fun s H => match H with end) series _ _ index Hlo).
+    intros HallK Hw Hb series index Hlo.
+    apply (apply_series_sim cfg db fs fs2 applied [] lo HallK Hb (fun s H => match H with end) series _ _ index Hlo).
     split; [exact Hw|]. exists [], []. repeat split; constructor.
   Qed.
 
